@@ -183,23 +183,43 @@ def run_case(ctx, repo, case):
                 ctx.ev("local_carry")
                 off = effective_offset(m) // 60
                 p = repo.tp(case["p"])
-                q = p.to_local_time_zone()
-                if R.tp_offset_minutes(q) != off or R.tp_instant(MODE, q) \
+                try:
+                    q = p.to_local_time_zone()
+                except Exception as exc:
+                    ctx.violation("carry.to_local", "to_local_time_zone of "
+                                  "%r under system offset %d min raised %r"
+                                  % (R.tp_key(p), off, exc))
+                    q = None
+                if q is None:
+                    pass
+                elif R.tp_offset_minutes(q) != off or R.tp_instant(MODE, q) \
                         != R.tp_instant(MODE, p):
                     ctx.violation("carry.to_local", "to_local_time_zone of "
                                   "%r under system offset %d min gave %r" % (
                                       R.tp_key(p), off, R.tp_key(q)))
                 else:
                     ctx.cls("carry/to_local")
-                r = repo.parsers.TimePointParser().parse("2001-02-03T04:05")
-                if R.tp_offset_minutes(r) != off:
+                try:
+                    r = repo.parsers.TimePointParser().parse(
+                        "2001-02-03T04:05")
+                except Exception as exc:
+                    ctx.violation("carry.parser", "parsing with the local "
+                                  "default zone (%d min) raised %r" % (
+                                      off, exc))
+                    r = None
+                if r is None:
+                    pass
+                elif R.tp_offset_minutes(r) != off:
                     ctx.violation("carry.parser", "parser default zone %d "
                                   "min under system offset %d min" % (
                                       R.tp_offset_minutes(r), off))
                 else:
                     ctx.cls("carry/parser")
-                repo.data.get_timepoint_from_seconds_since_unix_epoch(
-                    case.get("n", 0))
+                try:
+                    repo.data.get_timepoint_from_seconds_since_unix_epoch(
+                        case.get("n", 0))
+                except Exception:
+                    pass        # reported by the monitor
         if effective_offset(m):
             ctx.nontrivial(("zone", case["std"], case["alt"],
                             case["daylight"], case["isdst"]))
